@@ -4,6 +4,9 @@
   accepts a given borrowing program and what the allocator does are type-system / run-time facts: K2 compiles and
   runs move-only, `Rc`, `&` and `&mut` programs and counts allocations around sequential evaluations.
 -/
+import JoinModel.Lemmas.PrintCount
+import JoinModel.Lemmas.ParseInit
+import JoinModel.Props.C17
 import JoinModel.Lemmas.GenFacts
 import JoinModel.Print
 namespace JoinModel.Props.C19
@@ -106,5 +109,52 @@ example : (match mkCtx costProg ⟨false, false, true⟩ with
         | .ok s => s.elems.length == 2 && s.tbs.length == 2 && s.spawnJoin.isSome
         | .error _ => false)
     | .error _ => false) = true := by rfl
+
+/-! ### the expansion adds no `clone`, `Arc`, `Rc`, `Mutex`, `boxed` of its own -/
+
+/-- a word that is neither a template / printer word nor an internal name (internal names start with `__`, Props/C17) -/
+theorem pmarker_of (w : String) (hu : UserIdent w) (h0 : ¬ ∃ rest, w.toList = '_' :: '_' :: rest) (h1 : "inspect" ≠ w)
+    (h2 : "async" ≠ w) (h3 : "move" ≠ w) (h4 : w ∉ printerWords) (h5 : cntToks w Templates.fnInspect = 0)
+    (h6 : cntToks w Templates.fnTb = 0) : PMarker w :=
+  { user := hu, notInternal := fun v hv heq => h0 (by
+      obtain ⟨rest, hr⟩ := C17.internal_starts_with_underscores v hv
+      exact ⟨rest, by rw [← heq]; exact hr⟩),
+    notInspect := h1, notAsync := h2, notMove := h3, words := h4, inspectFn := h5, tbFn := h6 }
+
+
+theorem pm_clone : PMarker "clone" :=
+  pmarker_of _ (by decide) (by simp) (by decide) (by decide) (by decide) (by decide) (by decide) (by decide)
+theorem pm_arc : PMarker "Arc" :=
+  pmarker_of _ (by decide) (by simp) (by decide) (by decide) (by decide) (by decide) (by decide) (by decide)
+theorem pm_rc : PMarker "Rc" :=
+  pmarker_of _ (by decide) (by simp) (by decide) (by decide) (by decide) (by decide) (by decide) (by decide)
+theorem pm_mutex : PMarker "Mutex" :=
+  pmarker_of _ (by decide) (by simp) (by decide) (by decide) (by decide) (by decide) (by decide) (by decide)
+theorem pm_boxed : PMarker "boxed" :=
+  pmarker_of _ (by decide) (by simp) (by decide) (by decide) (by decide) (by decide) (by decide) (by decide)
+
+/-- **Every `clone` / `Arc` / `Rc` / `Mutex` / `boxed` in an expansion was written by the caller**: for every program the
+    generator accepts — any macro kind, any size, wrappers, block operands, handler — the number of occurrences of each of
+    these words in the emitted token stream equals their number in the operands and the handler the caller wrote (the
+    `let` patterns, the joiner and the futures path not mentioning the word).  The macro never clones, reference-counts,
+    locks or boxes a value on its own account (the one `Box::pin` of the async macros is the documented outer frame). -/
+theorem no_hidden_cost_words (w : String) (hw : w ∈ ["clone", "Arc", "Rc", "Mutex", "boxed"]) (p : Input) (kind : Kind)
+    (code : Code) (h : gen p kind = .ok code) (hinit : InitialOnlyFirst p) (ho : OtherTokensFree w p) :
+    cntToks w (printCode code) = cntProgram w p + cntToks w ((p.handler.map (·.2)).getD []) := by
+  have hm : PMarker w := by
+    simp only [List.mem_cons, List.mem_nil_iff, or_false] at hw
+    rcases hw with rfl | rfl | rfl | rfl | rfl
+    · exact pm_clone
+    · exact pm_arc
+    · exact pm_rc
+    · exact pm_mutex
+    · exact pm_boxed
+  exact expansion_count hm p kind code h hinit ho
+
+/-- …for whatever the parser accepts -/
+theorem accepted_no_hidden_clone (o : Oracle) (toks : Toks) (p : Input) (kind : Kind) (code : Code)
+    (hparse : parseMacroInput o toks = .ok p) (h : gen p kind = .ok code) (ho : OtherTokensFree "clone" p) :
+    cntToks "clone" (printCode code) = cntProgram "clone" p + cntToks "clone" ((p.handler.map (·.2)).getD []) :=
+  no_hidden_cost_words "clone" (by simp) p kind code h (parse_initial_only_first o toks p hparse) ho
 
 end JoinModel.Props.C19
